@@ -504,9 +504,8 @@ def _entry_points(col, rule="C07.R4"):
     ok = bool(sx.calls_some(S.mcall(S.sattr("table"), "_make_cache")))
     col.add(rule, "_ColView.get_index_unique#from-current-column", ok, sx.loc(sx.fn),
             "the unique row labels are computed from the current index column (not from a stored copy)", "")
-    sx = tctx(repo, "show")
-    ok = bool(sx.calls_some(S.mcall(S.SELF, "_make_cache")))
-    col.add(rule, "Table.show#labels-from-current-column", ok, sx.loc(sx.fn), "show() prints labels computed from the current index column", "")
+    # (Table.show prints such labels too; printing is not part of this property -- an obligation on it alarmed on a mutant of the
+    #  empty-table branch of show() in the second-generation self-test and was withdrawn)
     sx = tctx(repo, "_make_cache")
     ok = False
     for ev in sx.of_kind("store"):
